@@ -111,14 +111,18 @@ def run_case(case):
         W('data.txt', 'd\n')
         W('build.bfg', script(case))
         cfg = case['cfg']
-        args = []
+        # every configured directory is relocated below <scratch>/R, so that
+        # a change that loses DESTDIR can never write outside the scratch
+        # directory; the unset prefix is passed as its default, relocated
+        rbase = os.path.join(root, 'R')
+        args = [] if cfg['prefix'] else ['--prefix', rbase + '/usr/local']
         for k, flag in (('prefix', '--prefix'),
                         ('exec_prefix', '--exec-prefix'),
                         ('bindir', '--bindir'), ('libdir', '--libdir'),
                         ('includedir', '--includedir'),
                         ('datadir', '--datadir'), ('mandir', '--mandir')):
             if cfg[k]:
-                args += [flag, absdir(cfg[k])]
+                args += [flag, rbase + absdir(cfg[k])]
         env = tool_env()
         bld = os.path.join(root, 'build')
         rc, out = run(['/venv/bin/bfg9000', 'configure', bld,
@@ -171,25 +175,28 @@ def run_case(case):
             return events
         stage = os.path.join(root, *case['destdir'])
         srcsnap = tree_snapshot(src)
-        roots = {absdir(cfg[k])for k in cfg if cfg[k]}
-        existed = {r: os.path.exists(r) for r in roots}
+        sroot = stage + rbase
         rc, out = run(['make', 'install', 'DESTDIR=' + stage], cwd=bld,
                       env=env)
-        tree = listing(stage) if os.path.exists(stage) else []
-        changed = tree_snapshot(src) != srcsnap or any(
-            os.path.exists(r) != existed[r] for r in roots)
+        tree = listing(sroot) if os.path.exists(sroot) else []
+        everything = listing(stage) if os.path.exists(stage) else []
+        changed = tree_snapshot(src) != srcsnap or os.path.exists(rbase) or \
+            len(everything) != len(tree)
         events[0]['destdir'] = []
         events.append({'ev': 'Install', 'exit': rc, 'tree': tree,
                        'outside_changed': changed,
                        'note': out[-400:] if rc else ''})
         # rpath of the installed executable
+        bcomps = [c for c in rbase.split('/') if c]
         for p in tree:
-            full = os.path.join(stage, *p)
+            full = os.path.join(sroot, *p)
             if p[-1] == 'prog' and not os.path.islink(full):
                 r = subprocess.run(['patchelf', '--print-rpath', full],
                                    capture_output=True, text=True)
                 dirs = [[c for c in d.split('/') if c]
                         for d in r.stdout.strip().split(':') if d]
+                dirs = [d[len(bcomps):] if d[:len(bcomps)] == bcomps else d
+                        for d in dirs]
                 exe_dirarg = [e for e in events if e['ev'] == 'Item' and
                               e['kind'] == 'exe'][0]['dirarg']
                 events.append({'ev': 'Rpath', 'file': p, 'dirs': dirs,
@@ -202,9 +209,9 @@ def run_case(case):
         # (the build directory is moved away; the loader is pointed at the
         # staged library directories because DESTDIR is a staging prefix)
         for p in tree:
-            full = os.path.join(stage, *p)
+            full = os.path.join(sroot, *p)
             if p[-1] == 'prog' and not os.path.islink(full):
-                libdirs = sorted({os.path.join(stage, *q[:-1]) for q in tree
+                libdirs = sorted({os.path.join(sroot, *q[:-1]) for q in tree
                                   if '.so' in q[-1]})
                 os.rename(bld, bld + '.away')
                 try:
@@ -218,6 +225,8 @@ def run_case(case):
         rc, out = run(['make', 'uninstall', 'DESTDIR=' + stage], cwd=bld,
                       env=env)
         tree2 = listing(stage) if os.path.exists(stage) else []
+        tree2 = [x[len(bcomps):] if x[:len(bcomps)] == bcomps else x
+                 for x in tree2]
         events.append({'ev': 'Uninstall', 'exit': rc, 'tree': tree2,
                        'note': out[-300:] if rc else ''})
         return events
